@@ -221,9 +221,45 @@ static int sweep_format_padded()
     return dev ? 1 : 0;
 }
 
+// ---- declarations (C13): one meaning per long name across groups and kinds
+static int sweep_declarations()
+{
+    long n = 0; int dev = 0;
+    const char* names[] = { "a", "b" };
+    const int OPS = 2 * 3 * 2;    // group x kind x name
+    for (int len = 1; len <= 4; ++len)
+    {
+        long total = 1; for (int i = 0; i < len; ++i) total *= OPS;
+        for (long code = 0; code < total; ++code)
+        {
+            parser p; auto& g1 = p.group("g1");
+            std::map<S, std::pair<int, int>> ref; std::map<S, const void*> addr;
+            long c = code; bool ok = true; S trace;
+            for (int i = 0; i < len && ok; ++i, c /= OPS)
+            {
+                int op = (int)(c % OPS), grp = op / 6, kind = (op / 2) % 3; S name = names[op % 2];
+                nitro::options::group& g = grp ? g1 : p.group();
+                const void* got = nullptr; int exc = 0;
+                try { if (kind == 0) got = &g.option(name); else if (kind == 1) got = &g.multi_option(name); else got = &g.toggle(name); }
+                catch (parser_error&) { exc = 2; } catch (std::exception&) { exc = 3; }
+                trace += " " + S(grp ? "g1." : "default.") + (kind == 0 ? "option(" : kind == 1 ? "multi_option(" : "toggle(") + name + ")";
+                auto it = ref.find(name);
+                if (it == ref.end()) { if (exc != 0) ok = false; else { ref[name] = { grp, kind }; addr[name] = got; } }
+                else if (it->second == std::make_pair(grp, kind)) { if (exc != 0 || got != addr[name]) ok = false; }
+                else if (exc != 2) ok = false;
+            }
+            ++n;
+            if (!ok && ++dev <= 5) std::printf("DEVIATION declarations:%s\n", trace.c_str());
+        }
+    }
+    std::printf("declarations: %ld sequences, %d deviations\n", n, dev);
+    return dev ? 1 : 0;
+}
+
 int main(int argc, char** argv)
 {
     if (argc > 1 && !std::strcmp(argv[1], "format_padded")) return sweep_format_padded();
+    if (argc > 1 && (!std::strncmp(argv[1], "group_", 6) || !std::strncmp(argv[1], "parser_has", 10) || !std::strncmp(argv[1], "parser_get_all", 14))) return sweep_declarations();
     const char* E1 = "NITRO_REPLAY_E1"; const char* E2 = "NITRO_REPLAY_E2"; const char* E3 = "NITRO_REPLAY_E3";
     std::vector<Decl> decls = {
         { { { "verbose", "v", false, "", 0 }, { "all", "a", true, "", 0 } }, { { "out", "o", "", false, "", true } }, { { "inc", "i", "", false, {}, true } }, 2, false },
